@@ -76,6 +76,9 @@ enum Step {
     GradualPerfNext,
     /// decode a text from scratch and ask for its bpm (shares nothing by reference)
     Decode,
+    /// a clone of one of the world's prepared calculators (0: osu! on map #0, 1: the same switched to mania, 2: taiko on
+    /// map #1), given this thread's own Difficulty and calculated: clones of one value are independent values
+    ClonedPerformance { base: u8, s: u8 },
 }
 
 #[derive(Default)]
@@ -87,9 +90,22 @@ struct ThreadState {
 struct World {
     maps: &'static [Beatmap],
     setts: Vec<Setting>,
+    /// calculators prepared once and shared by reference; jobs clone them
+    bases: Vec<Performance<'static>>,
 }
 
+const BASE_MODES: [u8; 3] = [0, 3, 1];
+
 impl World {
+    fn new(maps: &'static [Beatmap]) -> Self {
+        let bases = vec![
+            Performance::new(&maps[0]),
+            Performance::new(&maps[0]).try_mode(gen::game_mode(3)).ok().expect("osu! map"),
+            Performance::new(&maps[1]),
+        ];
+        Self { maps, setts: setts(), bases }
+    }
+
     fn exec(&self, st: &mut ThreadState, step: Step) -> u64 {
         let d = |s: u8, dst: u8| self.setts[s as usize].difficulty(gen::game_mode(dst));
         let out = match step {
@@ -119,14 +135,20 @@ impl World {
                 let m = MapSpec::new(0, vec![o(Kind::Circle, 0, PosK::Same, 0, 0), o(Kind::Slider2, 150, PosK::Far, 8, 0), o(Kind::Spinner(600), 300, PosK::Same, 4, 0)]).decode();
                 format!("{m:?} {}", m.bpm())
             }
+            Step::ClonedPerformance { base, s } => {
+                let p = self.bases[base as usize].clone().difficulty(d(s, BASE_MODES[base as usize]));
+                format!("{:?}", p.accuracy(97.0).misses(1).calculate())
+            }
         };
         digest(&canon(&out))
     }
 
     /// Sequential reference: the digests a thread's step list yields when run alone.
     fn reference(&self, steps: &[Step]) -> Vec<u64> {
+        // (a world of its own: whatever a job leaves in the prepared calculators must not reach another job's reference)
+        let fresh = World::new(self.maps);
         let mut st = ThreadState::default();
-        steps.iter().map(|s| self.exec(&mut st, *s)).collect()
+        steps.iter().map(|s| fresh.exec(&mut st, *s)).collect()
     }
 }
 
@@ -146,6 +168,12 @@ fn jobs(len: usize) -> Vec<Vec<Step>> {
     let mut c = vec![Step::Convert { map: 0, dst: 3, s: 3 }, Step::GradualPerfNew { map: 0, dst: 3, s: 2 }, Step::GradualPerfNext];
     c.truncate(len);
     v.push(c);
+    // clones of one prepared calculator, each thread with its own Difficulty
+    for (s0, s1) in [(0u8, 2u8), (1, 4)] {
+        let mut e = vec![Step::ClonedPerformance { base: 0, s: s0 }, Step::ClonedPerformance { base: 1, s: s1 }, Step::ClonedPerformance { base: 0, s: s0 }];
+        e.truncate(len);
+        v.push(e);
+    }
     v
 }
 
@@ -175,6 +203,8 @@ fn guard_jobs() -> Vec<Vec<Step>> {
         vec![Step::Convert { map: 9, dst: 3, s: 6 }, Step::Difficulty { map: 9, dst: 3, s: 6 }],
         vec![Step::Difficulty { map: 10, dst: 0, s: 0 }, Step::Strains { map: 10, dst: 0, s: 0 }],
         vec![Step::Difficulty { map: 10, dst: 1, s: 0 }, Step::Difficulty { map: 10, dst: 0, s: 1 }],
+        vec![Step::ClonedPerformance { base: 0, s: 0 }, Step::ClonedPerformance { base: 1, s: 2 }],
+        vec![Step::ClonedPerformance { base: 0, s: 1 }, Step::ClonedPerformance { base: 1, s: 4 }],
     ]
 }
 
@@ -203,7 +233,7 @@ fn guard_run(args: &[String]) {
     for (i, r) in regions.iter().enumerate() {
         println!("G {i} {} {}", r.len, r.name);
     }
-    let world = World { maps, setts: setts() };
+    let world = World::new(maps);
     let job_of = |tid: u8| if tid == 0 { j0 } else { j1.unwrap_or(0) };
     let calls = [jobs[j0].len(), j1.map_or(0, |j| jobs[j].len())];
     let out = guard::run_two(guard::RunCfg { regions, hot, prefix, max_points: 20_000 }, calls, &|tid, c| GUARD_TS.with(|ts| world.exec(&mut ts.borrow_mut(), jobs[job_of(tid)][c])));
@@ -292,10 +322,10 @@ fn main() {
         std::env::set_var("VERIF_NO_EVIDENCE", "1");
     }
     let ctx = Ctx::from_env("C20");
-    ctx.rule("(A) interference: every assignment of jobs (difficulty / performance / strains calls, gradual difficulty and gradual performance walks split into their steps; taiko and mania conversions with two different Random seeds and key mods; shared &Beatmap) from a pool to T threads and every interleaving of the threads' calls (T=2 x 3 calls: 20 schedules per assignment; T=3 x 2 calls: 90; thorough T=3 x 3: 1680) executed on real OS threads under the baton scheduler; oracle = every call returns the value it returns when its thread runs alone, shared maps unchanged. (B) hand-over: every gradual calculator that is Send in this build (all of them in the `sync` build, which the default build runs as a child) is moved between T <= 3 threads at the step boundaries: all T^n ownership sequences, n <= 4 (quick) / 5, incl. create on one thread and drop on another; oracle = the single-thread sequence. (D) shared-access preemption: 20 jobs of two calls, all 210 unordered pairs on two real threads with the pages of the library's writable statics and of the shared Beatmap structs protected; scheduling points = thread start, call boundaries, every write to a guarded region, every read of a location some job writes; every choice vector with <= 2 preemptions, each execution in a fresh process; oracle = every call returns what it returns when its job runs alone in a fresh process, also when repeated sequentially after the concurrent run. (C) free-running: the (A) job bodies on 16 unsynchronised threads for a fixed number of rounds against the sequential table — sampling, reported separately under coverage.free_running and not part of the exhaustive claim; non-trivial = schedules with more than one thread / ownership sequences that change thread");
+    ctx.rule("(A) interference: every assignment of jobs (difficulty / performance / strains calls, gradual difficulty and gradual performance walks split into their steps; clones of one prepared calculator given different Difficulty values; taiko and mania conversions with two different Random seeds and key mods; shared &Beatmap) from a pool to T threads and every interleaving of the threads' calls (T=2 x 3 calls: 20 schedules per assignment; T=3 x 2 calls: 90; thorough T=3 x 3: 1680) executed on real OS threads under the baton scheduler; oracle = every call returns the value it returns when its thread runs alone, shared maps unchanged. (B) hand-over: every gradual calculator that is Send in this build (all of them in the `sync` build, which the default build runs as a child) is moved between T <= 3 threads at the step boundaries: all T^n ownership sequences, n <= 4 (quick) / 5, incl. create on one thread and drop on another; oracle = the single-thread sequence. (D) shared-access preemption: 22 jobs of two calls, all 253 unordered pairs on two real threads with the pages of the library's writable statics and of the shared Beatmap structs protected; scheduling points = thread start, call boundaries, every write to a guarded region, every read of a location some job writes; every choice vector with <= 2 preemptions, each execution in a fresh process; oracle = every call returns what it returns when its job runs alone in a fresh process, also when repeated sequentially after the concurrent run. (C) free-running: the (A) job bodies on 16 unsynchronised threads for a fixed number of rounds against the sequential table — sampling, reported separately under coverage.free_running and not part of the exhaustive claim; non-trivial = schedules with more than one thread / ownership sequences that change thread");
     ctx.assume("(A)/(B) switch threads at public call boundaries only; that is complete iff two calculations share no mutable location, which (D) checks on this very build: every access to the library's writable statics (found in the binary's symbol table) and to the shared Beatmap structs is intercepted, and where a job writes such a location all schedules with <= 2 preemptions at those accesses are explored. Outside every exhaustive part: heap state reached only through a pointer stored in a static, weak-memory reorderings; (C) samples those");
 
-    let world = World { maps: Box::leak(maps().into_boxed_slice()), setts: setts() };
+    let world = World::new(Box::leak(maps().into_boxed_slice()));
     let pristine = world.maps.to_vec();
     let quick = ctx.quick();
 
@@ -355,6 +385,7 @@ fn main() {
             }
             l.nontrivial();
             l.states(1);
+            let world = World::new(world.maps);
             let r = baton::run_schedule_with(t, sch, |_| ThreadState::default(), |tid, step, st| world.exec(st, pool[a[tid as usize]][step]));
             match r {
                 Err(e) => l.violation("schedule_failed", || format!("threads={a:?} schedule={sch:?}\n{e}")),
